@@ -519,3 +519,31 @@ pub fn gen_txn(rng: &mut Rng, len: usize, vmax: u32, oob: bool, trav: bool, maxl
     };
     VOp::Txn(body, end)
 }
+
+/// Builds the vector under test. Capacity 16 is what `new()`, `default()` and `From<Vector>` use, so
+/// those constructors are exercised for it (chosen by the shape of the initial contents).
+pub fn make_vector(capacity: usize, init: &[u32]) -> ObservableVector<Tracked> {
+    let items = || -> Vector<Tracked> { init.iter().map(|v| Tracked::new(*v)).collect() };
+    if capacity == 16 {
+        match init.len() % 3 {
+            0 => return ObservableVector::from(items()),
+            1 => {
+                let mut ob = ObservableVector::new();
+                ob.append(items());
+                return ob;
+            }
+            _ => {
+                let mut ob = ObservableVector::default();
+                if !init.is_empty() {
+                    ob.append(items());
+                }
+                return ob;
+            }
+        }
+    }
+    let mut ob = ObservableVector::with_capacity(capacity);
+    if !init.is_empty() {
+        ob.append(items());
+    }
+    ob
+}
